@@ -226,6 +226,7 @@ func (rs *rowStore) memStoreSize() int {
 }
 
 func (rs *rowStore) insert(insert *insert) {
+	verifCount("submitted", rs.t)
 	rs.inserts <- insert
 }
 
@@ -293,6 +294,7 @@ func (rs *rowStore) processInserts(offsetsBySource common.OffsetsBySource, stop 
 				rs.t.updateHighWaterMarkMemory(insert.vals.TimeInt())
 			}
 			rs.mx.Unlock()
+			verifCount("applied", rs.t)
 		case <-flushTimer.C:
 			rs.t.log.Trace("Requesting flush due to flush interval")
 			flush(false)
